@@ -125,6 +125,8 @@ fn gate_case(l: &mut Local, kind: Kind, fmt: u8, f: F, body: &[u8], pad: u8) {
 /// is the bytes between the header and the padding" is checked.
 fn gate_case_x(l: &mut Local, kind: Kind, fmt: u8, f: F, body: &[u8], pad: u8, strict: bool) {
     let pkt = packet(kind, fmt, body, pad);
+    // handed over at a rotating address residue (engine::place)
+    crate::placed!(l, pkt);
     l.transitions += 1;
     let r = guard::catch(|| observe_as(f, kind, &pkt));
     l.validated += 1;
@@ -533,12 +535,8 @@ pub fn c15(ctx: &mut Ctx) {
     }
     // direct FCI parsers
     let sp = bytes::fci_raw_space();
-    let get = &sp.get;
-    ctx.run_space(&format!("direct:{}", sp.name), sp.len, |idx, l| {
-        let mut buf = Vec::with_capacity(48);
-        get(idx, &mut buf);
-        direct_case(l, &buf);
-    });
+    super::bytes::placement_bound(ctx);
+    sp.run(ctx, &format!("direct:{}", sp.name), super::bytes::cross_limit(ctx), |s, l| direct_case(l, s));
     for f in FS {
         ctx.require_hit(f.ok_bucket());
     }
